@@ -47,6 +47,7 @@ type Choices struct {
 	AmbrDL, AmbrUL int64
 	QosRulesLen int
 	AcceptOpt   uint // optional IEs of PDU SESSION ESTABLISHMENT ACCEPT in front of the PDU address: bit0 5GSM cause
+	PerUE       int  // how the 5G-AKA vector varies from UE to UE: 0 fresh RAND, same SQN; 1 same RAND, SQN+k; 2 fresh RAND, SQN+k; 3 same RAND, same SQN
 }
 
 func DefaultChoices() Choices {
@@ -530,8 +531,23 @@ func (a *AMF) onRegistrationRequest(ran int64, nas []byte) [][]byte {
 	a.byAmf[u.AmfID] = u
 	// 5G-AKA vector
 	rand := append([]byte{}, a.Ch.RAND...)
-	rand[15] ^= byte(k) // a fresh RAND per UE
-	autn := refcrypto.AUTN(a.Cfg.K, a.Cfg.OPc, rand, a.Ch.SQN, a.Ch.AMFField)
+	sqn := append([]byte{}, a.Ch.SQN...)
+	if a.Ch.PerUE == 0 || a.Ch.PerUE == 2 {
+		rand[15] ^= byte(k) // a fresh RAND per UE
+	}
+	if a.Ch.PerUE == 1 || a.Ch.PerUE == 2 {
+		// the subscriber's SQN advances from one authentication to the next (48-bit addition of the UE index)
+		v := uint64(0)
+		for _, b := range sqn {
+			v = v<<8 | uint64(b)
+		}
+		v = (v + uint64(k)) & (1<<48 - 1)
+		for i := 5; i >= 0; i-- {
+			sqn[i] = byte(v)
+			v >>= 8
+		}
+	}
+	autn := refcrypto.AUTN(a.Cfg.K, a.Cfg.OPc, rand, sqn, a.Ch.AMFField)
 	keys := refcrypto.Derive5G(a.Cfg.K, a.Cfg.OPc, rand, autn[0:6], a.Cfg.MCC, a.Cfg.MNC, supi, byte(u.nea), byte(u.nia))
 	u.xres, u.kamf = keys.ResStar, keys.Kamf
 	u.sec = refnas.SecCtx{NIA: u.nia, NEA: u.nea, KInt: keys.KnasInt, KEnc: keys.KnasEnc}
